@@ -128,3 +128,194 @@ M("C04", "twin: assert-style sv guard", "twin",
     "        unsupported = data.hamiltonian_type != HamiltonianType.Rydberg or data.dim != 2\n        if unsupported:\n            raise NotImplementedError(")])
 M("C04", "twin: elif chain in make_H", "twin",
   [("emu_mps/hamiltonian.py", "    if hamiltonian_type == HamiltonianType.XY:\n        return MPO(", "    elif hamiltonian_type == HamiltonianType.XY:\n        return MPO(")])
+
+# ---------------------------------------------------------------- C06
+LO = "emu_sv/lindblad_operator.py"
+MM = "emu_base/math/matmul.py"
+M("C06", "batched arm drops conj", "kill", [(LO, "density_matrix = matmul_2x2_with_batched(local_op.conj(), density_matrix)", "density_matrix = matmul_2x2_with_batched(local_op, density_matrix)")], "DEVICE-arms")
+M("C06", "batched arm swaps operands", "kill", [(LO, "            density_matrix = matmul_2x2_with_batched(local_op, density_matrix)\n", "            density_matrix = matmul_2x2_with_batched(density_matrix, local_op)\n")], "DEVICE-arms")
+M("C06", "kernel uses left[0,1] twice", "kill", [(MM, "        alpha=left[1, 0],  # type: ignore [arg-type]", "        alpha=left[0, 1],  # type: ignore [arg-type]")], "DEVICE-kernel")
+M("C06", "kernel selects wrong column", "kill",
+  [(MM, "        one,\n        right.select(1, 1).unsqueeze(1),\n        alpha=left[1, 1],", "        one,\n        right.select(1, 0).unsqueeze(1),\n        alpha=left[1, 1],")], "DEVICE-kernel")
+M("C06", "twin: is_cuda test with swapped arms", "twin",
+  [(LO, "        if density_matrix.is_cpu:\n            density_matrix = local_op @ density_matrix\n        else:\n            density_matrix = matmul_2x2_with_batched(local_op, density_matrix)",
+    "        if not density_matrix.is_cpu:\n            density_matrix = matmul_2x2_with_batched(local_op, density_matrix)\n        else:\n            density_matrix = local_op @ density_matrix")])
+
+# ---------------------------------------------------------------- C07 / C08
+KE = "emu_base/math/krylov_exp.py"
+KM = "emu_base/math/krylov_energy_min.py"
+DK = "emu_base/math/double_krylov.py"
+M("C07", "last iteration reported converged", "kill",
+  [(KE, "        converged=False,\n        happy_breakdown=False,\n        iteration_count=max_krylov_dim,", "        converged=True,\n        happy_breakdown=False,\n        iteration_count=max_krylov_dim,")], "CONV-honest")
+M("C07", "tolerance scaled in the test", "kill", [(KE, "        if err < exp_tolerance:", "        if err < 100 * exp_tolerance:")], "CONV-honest")
+M("C07", "krylov_exp does not raise", "kill",
+  [(KE, "    if not krylov_result.converged:\n        raise RecursionError(\n            \"exponentiation algorithm did not converge to precision in allotted number of steps.\"\n        )\n", "")], "CONV-entry")
+M("C07", "client bypasses the raising entry", "kill",
+  [(SU, "from emu_base import krylov_exp\n", "from emu_base import krylov_exp\nfrom emu_base.math.krylov_exp import krylov_exp_impl\n"),
+   (SU, "    return krylov_exp(\n        op,\n        state_factor,\n        exp_tolerance=config.precision * config.extra_krylov_tolerance,\n        norm_tolerance=config.precision * config.extra_krylov_tolerance,\n        max_krylov_dim=config.max_krylov_dim,\n        is_hermitian=is_hermitian,\n    )\n",
+    "    return krylov_exp_impl(\n        op,\n        state_factor,\n        exp_tolerance=config.precision * config.extra_krylov_tolerance,\n        norm_tolerance=config.precision * config.extra_krylov_tolerance,\n        max_krylov_dim=config.max_krylov_dim,\n        is_hermitian=is_hermitian,\n    ).result\n")], "CONV-callers")
+M("C07", "lanczos never raises", "kill", [(DK, "    if not converged:\n        raise RecursionError(", "    if False:\n        raise RecursionError(")], "CONV-entry")
+M("C07", "twin: flipped comparison", "twin", [(KE, "        if err < exp_tolerance:", "        if exp_tolerance > err:")])
+M("C08", "converged without the residual test", "kill", [(KM, "        if resid.item() < residual_tolerance:\n            converged = True\n            break", "        if resid.item() < residual_tolerance or j == max_krylov_dim - 1:\n            converged = True\n            break")], "CONV-honest")
+M("C08", "entry does not raise", "kill", [(KM, "    if not result.converged and not result.happy_breakdown:", "    if not result.converged and not result.happy_breakdown and False:")], "CONV-entry")
+M("C08", "client uses the non-raising impl", "kill",
+  [(SU, "from emu_base.math.krylov_energy_min import krylov_energy_minimization\n", "from emu_base.math.krylov_energy_min import krylov_energy_minimization, krylov_energy_minimization_impl\n"),
+   (SU, "    updated_state, updated_energy = krylov_energy_minimization(\n", "    _r = krylov_energy_minimization_impl(\n"),
+   (SU, "        max_krylov_dim=config.max_krylov_dim,\n    )\n    updated_state = updated_state.view(", "        max_krylov_dim=config.max_krylov_dim,\n    )\n    updated_state, updated_energy = _r.ground_state, _r.ground_energy.item()\n    updated_state = updated_state.view(")], "CONV-callers")
+
+# ---------------------------------------------------------------- C09 / C10
+M("C09", "DMRG completes a step without convergence", "kill",
+  [(IMPL, "        if self.convergence_check(self.energy_tolerance):\n            self.current_time = self.target_time", "        if self.convergence_check(self.energy_tolerance) or self.sweep_count > 5:\n            self.current_time = self.target_time")], "CONV-gate")
+M("C09", "DMRG centre flag inverted", "kill", [(IMPL, "        self.state.orthogonality_center = idx + 1 if orth_center_right else idx", "        self.state.orthogonality_center = idx if orth_center_right else idx + 1")], "CENTER")
+M("C09", "DMRG left bath not popped", "kill", [(IMPL, "            ).to(self.state.factors[idx].device)\n            )\n            self.left_baths.pop()\n", "            ).to(self.state.factors[idx].device)\n            )\n")], "BATHS")
+M("C09", "DMRG residual tolerance literal", "kill", [(IMPL, "            residual_tolerance=self.config.precision,", "            residual_tolerance=1e-3,")], "ROLE-mps")
+M("C09", "DMRG no orthogonalize before the gate", "kill", [(IMPL, "            self.state.orthogonalize(0)\n            self._swipe_direction = SwipeDirection.LEFT_TO_RIGHT\n            self.sweep_count += 1", "            self._swipe_direction = SwipeDirection.LEFT_TO_RIGHT\n            self.sweep_count += 1")], "JUMP-path")
+M("C09", "split in minimize_energy_pair uses default rank", "kill",
+  [(SU, "        max_error=config.precision,\n        max_rank=config.max_bond_dim,\n        orth_center_right=orth_center_right,\n    )\n\n    return (", "        max_error=config.precision,\n        orth_center_right=orth_center_right,\n    )\n\n    return (")], "TRUNCARGS")
+M("C10", "truncate does not orthogonalize first", "kill", [("emu_mps/mps.py", "        self.orthogonalize(self.num_sites - 1)\n        truncate_impl(", "        truncate_impl(")], "CENTER")
+M("C10", "truncate leaves stale centre", "kill", [("emu_mps/mps.py", "            self.factors, precision=self.precision, max_bond_dim=self.max_bond_dim\n        )\n        self.orthogonality_center = 0", "            self.factors, precision=self.precision, max_bond_dim=self.max_bond_dim\n        )")], "CENTER")
+M("C10", "evolve_pair ignores the bond cap", "kill", [(SU, "        max_rank=config.max_bond_dim,\n        orth_center_right=orth_center_right,\n        preserve_norm", "        orth_center_right=orth_center_right,\n        preserve_norm")], "TRUNCARGS")
+M("C10", "apply_to truncates with the default precision", "kill", [("emu_mps/mpo.py", "            precision=other.precision,\n            max_bond_dim=other.max_bond_dim,", "            precision=DEFAULT_PRECISION,\n            max_bond_dim=other.max_bond_dim,")], "TRUNCARGS")
+M("C10", "splitter flag ignored", "kill", [(SU, "        orth_center_right=orth_center_right,\n        preserve_norm=not is_hermitian,", "        orth_center_right=True,\n        preserve_norm=not is_hermitian,")], "CENTER")
+M("C10", "apply without orthogonalize", "kill", [("emu_mps/mps.py", "        self.orthogonalize(qubit_index)\n\n        self.factors[qubit_index] = (", "        self.factors[qubit_index] = (")], "CENTER")
+M("C10", "twin: keyword order", "twin", [("emu_mps/mps.py", "            self.factors, precision=self.precision, max_bond_dim=self.max_bond_dim\n", "            self.factors, max_bond_dim=self.max_bond_dim, precision=self.precision\n")])
+
+# ---------------------------------------------------------------- C11 / C12
+M("C11", "scale_factors in place", "kill", [("emu_mps/algebra.py", "    return [scalar * f if i == which else f for i, f in enumerate(factors)]", "    factors[which] = scalar * factors[which]\n    return factors")], "PURE")
+M("C11", "inner truncates its operand", "kill",
+  [("emu_mps/mps.py", "        acc = torch.ones(1, 1, dtype=self.factors[0].dtype, device=self.factors[0].device)\n\n        for i in range(self.num_sites):", "        acc = torch.ones(1, 1, dtype=self.factors[0].dtype, device=self.factors[0].device)\n        other.truncate()\n        for i in range(self.num_sites):")], "PURE")
+M("C11", "add_factors writes into its input", "kill", [("emu_mps/algebra.py", "        core2 = core2.to(core1.device)\n", "        core2 = core2.to(core1.device)\n        core2 *= 1.0\n")], "PURE")
+M("C11", "MPO rg/gr tables swapped", "kill",
+  [("emu_mps/mpo.py", "                \"rg\": torch.tensor([[0.0, 0.0], [1.0, 0.0]], dtype=dtype).view(\n                    1, 2, 2, 1\n                ),\n                \"gr\": torch.tensor([[0.0, 1.0], [0.0, 0.0]], dtype=dtype).view(",
+    "                \"gr\": torch.tensor([[0.0, 0.0], [1.0, 0.0]], dtype=dtype).view(\n                    1, 2, 2, 1\n                ),\n                \"rg\": torch.tensor([[0.0, 1.0], [0.0, 0.0]], dtype=dtype).view(")], "TABLES-mpo")
+M("C11", "leakage symbol xr misplaced", "kill",
+  [("emu_mps/mpo.py", "                \"xr\": torch.tensor(\n                    [[0.0, 0.0, 0.0], [0.0, 0.0, 0.0], [0.0, 1.0, 0.0]], dtype=dtype", "                \"xr\": torch.tensor(\n                    [[0.0, 0.0, 0.0], [0.0, 0.0, 1.0], [0.0, 0.0, 0.0]], dtype=dtype")], "TABLES-mpo")
+M("C11", "amplitude character map swapped", "kill", [("emu_mps/mps.py", "                if ch == one:\n                    factors.append(basis_1)", "                if ch == one:\n                    factors.append(basis_0)")], "TABLES-mps")
+M("C11", "twin: expect via local alias", "twin", [("emu_mps/mpo.py", "        n = len(self.factors) - 1\n", "        fs = self.factors\n        n = len(fs) - 1\n")])
+M("C12", "sparse rg/gr swapped", "kill",
+  [("emu_sv/sparse_operator.py", "                \"rg\": torch.tensor([[0.0, 0.0], [1.0, 0.0]], dtype=dtype).to_sparse_coo(),", "                \"rg\": torch.tensor([[0.0, 1.0], [0.0, 0.0]], dtype=dtype).to_sparse_coo(),")], "TABLES-sv")
+M("C12", "state amplitudes read g as 1", "kill", [("emu_sv/state_vector.py", "state.replace(one, \"1\").replace(\"g\", \"0\"), 2", "state.replace(one, \"0\").replace(\"g\", \"1\"), 2")], "TABLES-sv")
+M("C12", "StateVector.__add__ in place", "kill", [("emu_sv/state_vector.py", "            self.data + other.data,", "            self.data.add_(other.data),")], "PURE")
+M("C12", "DenseOperator.__rmul__ in place", "kill", [("emu_sv/dense_operator.py", "        return DenseOperator(scalar * self.data)", "        self.data *= scalar\n        return self")], "PURE")
+
+# ---------------------------------------------------------------- C13 / C14
+M("C13", "callbacks see the un-normalised state", "kill", [(IMPL, "        if self.well_prepared_qubits_filter is None:\n            state = normalized_state", "        if self.well_prepared_qubits_filter is None:\n            state = self.state")], "ROLE-callback")
+M("C13", "noisy observables with the noise term", "kill", [(IMPL, "    def timestep_complete(self) -> None:\n        self.update_H_no_noise()\n        super().timestep_complete()", "    def timestep_complete(self) -> None:\n        super().timestep_complete()")], "ROLE-noise")
+M("C13", "variance sign", "kill", [("emu_mps/custom_callback_implementations.py", "    en_var = h_2 - h**2", "    en_var = h**2 - h_2")], "OBSDEF")
+M("C13", "occupation projector on level 0", "kill", [("emu_mps/custom_callback_implementations.py", "    op[0, 1, 1] = 1.0", "    op[0, 0, 0] = 1.0")], "OBSDEF")
+M("C13", "dark padding with a different filter", "kill",
+  [(IMPL, "                orthogonality_center=get_extended_site_index(\n                    self.well_prepared_qubits_filter,", "                orthogonality_center=get_extended_site_index(\n                    torch.ones_like(self.well_prepared_qubits_filter),")], "DARK-mps")
+M("C14", "fill_results after the index increment", "kill", [(IMPL, "        self.fill_results()\n        self._timestep_index += 1\n", "        self._timestep_index += 1\n        self.fill_results()\n")], "ONCE")
+M("C14", "callback time differs from the filter time", "kill",
+  [(IMPL, "            callback(\n                self.config,\n                fractional_time,\n                state,", "            callback(\n                self.config,\n                self.target_time / self.target_times[-1],\n                state,")], "ONCE")
+M("C14", "sv observables with the old index", "kill", [(SVI, "        step_idx += 1\n        self._apply_observables(step_idx)", "        self._apply_observables(step_idx)\n        step_idx += 1")], "STEP-sv")
+M("C14", "exact merge of times", "kill",
+  [(PA, "    target_times_rel = _merge_close_times(\n        evolution_times_rel | _unique_observable_times(config)\n    )", "    target_times_rel = evolution_times_rel | _unique_observable_times(config)")], "TIMEEQ")
+M("C14", "observable times not merged", "kill",
+  [(PA, "    target_times_rel = _merge_close_times(\n        evolution_times_rel | _unique_observable_times(config)\n    )", "    target_times_rel = _merge_close_times(evolution_times_rel)")], "GRID")
+M("C14", "extra fill_results call", "kill", [(IMPL, "        self.current_time = self.target_time\n        self.timestep_complete()\n\n    def timestep_complete(self) -> None:\n        self.fill_results()",
+                                            "        self.current_time = self.target_time\n        self.fill_results()\n        self.timestep_complete()\n\n    def timestep_complete(self) -> None:\n        self.fill_results()")], "ONCE")
+M("C14", "twin: rename fractional_time", "twin",
+  [(IMPL, "        fractional_time = self.current_time / self.target_times[-1]\n\n        callbacks_for_current_time_step = [\n            callback\n            for callback in self.config.observables\n            if self._is_evaluation_time(callback, fractional_time)\n        ]",
+    "        rel_t = self.current_time / self.target_times[-1]\n        fractional_time = rel_t\n\n        callbacks_for_current_time_step = [\n            callback\n            for callback in self.config.observables\n            if self._is_evaluation_time(callback, rel_t)\n        ]")])
+
+# ---------------------------------------------------------------- C15 / C16 / C17 / C18
+M("C15", "rates swapped on the way down", "kill", [("emu_base/utils.py", "                readout_with_error(c, p_false_pos=p_false_pos, p_false_neg=p_false_neg)", "                readout_with_error(c, p_false_pos=p_false_neg, p_false_neg=p_false_pos)")], "KWSWAP")
+M("C15", "readout compares with the wrong rate", "kill", [("emu_base/utils.py", "    if c == \"0\" and r < p_false_pos:", "    if c == \"0\" and r < p_false_neg:")], "ROLE-readout")
+M("C15", "density-matrix sampler swaps rates", "kill",
+  [("emu_sv/density_matrix_state.py", "                p_false_pos=p_false_pos,\n                p_false_neg=p_false_neg,", "                p_false_pos=p_false_neg,\n                p_false_neg=p_false_pos,")], "KWSWAP")
+M("C15", "MPS writes leakage as 1", "kill", [("emu_mps/mps.py", "\"1\" if x == 1 else \"0\" for x in outcome", "\"0\" if x == 0 else \"1\" for x in outcome")], "ROLE-readout")
+M("C16", "density stepper hermitian", "kill", [(TE, "                is_hermitian=False,\n", "                is_hermitian=True,\n")], "HERM")
+M("C16", "lindbladian sign of the dagger part", "kill", [(LO, "        H_den_matrix = H_den_matrix - H_den_matrix.conj().T", "        H_den_matrix = H_den_matrix + H_den_matrix.conj().T")], "LINDBLAD-form")
+M("C16", "jump term coefficient", "kill", [(LO, "        return H_den_matrix + 1.0j * L_den_matrix_Ldag", "        return H_den_matrix + L_den_matrix_Ldag")], "LINDBLAD-form")
+M("C16", "noise term factor", "kill", [(JL, "    return -0.5j * sum((L.mH @ L for L in lindbladians), start=zero)", "    return -1.0j * sum((L.mH @ L for L in lindbladians), start=zero)")], "LINDBLAD-form")
+M("C16", "stepper chosen independently of the state type", "kill",
+  [(SVI, "        if self.pulser_lindblads:\n            stepper = EvolveDensityMatrix\n            state_type = DensityMatrix", "        if self.pulser_lindblads:\n            stepper = EvolveDensityMatrix\n            state_type = StateVector")], "ROLE-sv")
+M("C17", "noise term never installed", "kill", [(IMPL, "        self.lindblad_noise = compute_noise_from_lindbladians(self.lindblad_ops, self.dim)", "        self.lindblad_noise = compute_noise_from_lindbladians([], self.dim)")], "ROLE-noise")
+M("C17", "jump candidates operator-major", "kill",
+  [(IMPL, "                for qubit in range(self.state.num_sites)\n                for op in self.lindblad_ops", "                for op in self.lindblad_ops\n                for qubit in range(self.state.num_sites)")], "ROLE-noise")
+M("C17", "no bath rebuild after a jump", "kill", [(IMPL, "        self.state *= 1 / self.state.norm()\n        self.init_baths()\n", "        self.state *= 1 / self.state.norm()\n")], "ROLE-noise")
+M("C17", "aggregated ops without dagger", "kill", [(IMPL, "stacked.conj().transpose(1, 2) @ stacked", "stacked.transpose(1, 2) @ stacked")], "ROLE-noise")
+M("C18", "finder started on the wrong bracket", "kill", [(IMPL, "                    start=previous_time,\n                    end=self.current_time,", "                    start=self.current_time,\n                    end=self.target_time,")], "JUMP-path")
+M("C18", "gaps swapped", "kill", [(IMPL, "                    f_start=previous_norm_gap_before_jump,\n                    f_end=self.norm_gap_before_jump,", "                    f_start=self.norm_gap_before_jump,\n                    f_end=previous_norm_gap_before_jump,")], "JUMP-path")
+M("C18", "step also completed when a jump starts", "kill",
+  [(IMPL, "                self.target_time = self.root_finder.get_next_abscissa()\n            else:\n                self.timestep_complete()\n\n            return", "                self.target_time = self.root_finder.get_next_abscissa()\n            self.timestep_complete()\n\n            return")], "JUMP-path")
+M("C18", "finder not cleared after the jump", "kill", [(IMPL, "            self.target_time = self.target_times[self._timestep_index + 1]\n            self.root_finder = None\n", "            self.target_time = self.target_times[self._timestep_index + 1]\n")], "JUMP-path")
+M("C18", "index advanced outside timestep_complete", "kill", [(IMPL, "            self.do_random_quantum_jump()\n            self.target_time = self.target_times[self._timestep_index + 1]", "            self.do_random_quantum_jump()\n            self._timestep_index += 0\n            self.target_time = self.target_times[self._timestep_index + 1]")], "JUMP-ownership")
+
+# ---------------------------------------------------------------- C21 / C22 / C23 / C24 / C25
+M("C21", "grid starts at dt", "kill", [(PA, "        i * float(dt) / duration for i in range(n_steps + 1)", "        i * float(dt) / duration for i in range(1, n_steps + 1)")], "GRID")
+M("C21", "end point dropped", "kill", [(PA, "    evolution_times_rel.add(1.0)\n", "")], "GRID")
+M("C21", "duration ignores modulation", "kill", [(PA, "sequence.get_duration(include_fall_time=config.with_modulation)", "sequence.get_duration()")], "GRID")
+M("C21", "reps ignored", "kill", [(PA, "            for _ in range(samples.reps):\n                yield SequenceData(", "            if True:\n                yield SequenceData(")], "TRAJ-reps")
+M("C21", "list instead of set", "kill", [(PA, "    target_times: list[float] = sorted({t * duration for t in target_times_rel})", "    target_times: list[float] = sorted([t * duration for t in target_times_rel] + [duration])")], "GRID")
+M("C22", "clamp only the last row", "kill",
+  [(PA, "                data_mid[:, q_pos] = torch.where(\n                    data_mid[:, q_pos] > 0,\n                    data_mid[:, q_pos],", "                data_mid[-1, q_pos] = torch.where(\n                    data_mid[-1, q_pos] > 0,\n                    data_mid[-1, q_pos],")], "CLAMP")
+M("C22", "clamp applied to every signal", "kill", [(PA, "            if name == \"amp\":\n", "            if True:\n")], "CLAMP")
+M("C22", "det and phase arrays swapped in the table", "kill", [(PA, "        \"det\": delta_mid,\n        \"phase\": phi_mid,", "        \"det\": phi_mid,\n        \"phase\": delta_mid,")], "STEP-adapter")
+M("C22", "evaluated at step starts", "kill", [(PA, "            data_mid[:, q_pos] = pchip(t_mid)", "            data_mid[:, q_pos] = pchip(target_t[:-1])")], "STEP-adapter")
+M("C22", "delta and phi swapped at the consumer", "kill", [(PA, "            omega, delta, phi = _extract_omega_delta_phi(", "            omega, phi, delta = _extract_omega_delta_phi(")], "ROLE-seqdata")
+M("C22", "twin: clamp with torch.clamp", "twin",
+  [(PA, "                data_mid[:, q_pos] = torch.where(\n                    data_mid[:, q_pos] > 0,\n                    data_mid[:, q_pos],\n                    0,\n                )", "                data_mid[:, q_pos] = torch.clamp(data_mid[:, q_pos], min=0)")])
+M("C23", "register matrix preferred over the user matrix", "kill",
+  [(PA, "                self.full_interaction_matrix\n                if self.full_interaction_matrix is not None\n                else samples.trajectory.interaction_matrix.as_tensor()", "                samples.trajectory.interaction_matrix.as_tensor()\n                if self.full_interaction_matrix is None or True\n                else self.full_interaction_matrix")], "INTERACT")
+M("C23", "no clone before the cutoff", "kill", [(PA, "            full_interaction_matrix = full_interaction_matrix.clone()\n\n", "")], "INTERACT")
+M("C23", "cutoff without abs", "kill", [(PA, "                torch.abs(full_interaction_matrix) < self.interaction_cutoff", "                full_interaction_matrix < self.interaction_cutoff")], "INTERACT")
+M("C23", "SLM columns left", "kill", [(PA, "                masked_interaction_matrix[target] = 0.0\n                masked_interaction_matrix[:, target] = 0.0", "                masked_interaction_matrix[target] = 0.0")], "INTERACT")
+M("C23", "switch uses <=", "kill", [(PA, "        if t < self.slm_end_time:", "        if t <= self.slm_end_time:")], "INTERACT")
+M("C23", "matrix queried at the previous step", "kill", [(IMPL, "            0.5 * (self.current_time + self.target_time)\n", "            1.5 * self.current_time - 0.5 * self.target_time\n")], "INTERACT-time")
+M("C24", "dephasing rate not halved", "kill", [(JL, "        c = math.sqrt(noise_model.dephasing_rate / 2)", "        c = math.sqrt(noise_model.dephasing_rate)")], "BASIS-rate")
+M("C24", "relaxation writes r<-g", "kill", [(JL, "        relaxation[0, 1] = c", "        relaxation[1, 0] = c")], "BASIS-table")
+M("C24", "depolarizing without square root", "kill", [(JL, "        c = math.sqrt(noise_model.depolarizing_rate / 4)", "        c = noise_model.depolarizing_rate / 4")], "BASIS-rate")
+M("C24", "XY operators flipped too", "kill", [(JL, "        if interact_type == \"ising\":\n            for tensor in lindblad_ops:", "        if True:\n            for tensor in lindblad_ops:")], "BASIS")
+M("C24", "eff_noise rate without sqrt", "kill", [(JL, "            math.sqrt(rate) * op", "            rate * op")], "BASIS-rate")
+M("C25", "mask not permuted", "kill", [(IMPL, "            self.well_prepared_qubits_filter = torch.logical_not(\n                torch.tensor(bad_atoms)\n            )[self.qubit_permutation]", "            self.well_prepared_qubits_filter = torch.logical_not(\n                torch.tensor(bad_atoms)\n            )")], "PERM")
+M("C25", "phi not filtered", "kill", [(IMPL, "            self.phi = self.phi[:, self.well_prepared_qubits_filter]\n", "")], "DARK-mps")
+M("C25", "filter keeps the bad atoms", "kill", [(IMPL, "            self.well_prepared_qubits_filter = torch.logical_not(\n                torch.tensor(bad_atoms)\n            )[self.qubit_permutation]", "            self.well_prepared_qubits_filter = torch.tensor(bad_atoms)[self.qubit_permutation]")], "DARK-mps")
+M("C25", "sv zeroes only rows", "kill", [(SVI, "                mat[indices, :] = 0.0\n                mat[:, indices] = 0.0", "                mat[indices, :] = 0.0")], "DARK-sv")
+M("C25", "sv edits the shared matrix", "kill", [(SVI, "                mat = original(t).clone()", "                mat = original(t)")], "DARK-sv")
+M("C25", "dark factor literal dimension", "kill", [("emu_mps/utils.py", "            factor = torch.zeros(\n                bond_dimension, dim, 1, dtype=torch.complex128\n            )", "            factor = torch.zeros(\n                bond_dimension, 2, 1, dtype=torch.complex128\n            )")], "PHYSDIM")
+
+# ---------------------------------------------------------------- C26 / C27
+M("C26", "resume returns raw results", "kill", [(BACK, "        return impl.permute_results(result, impl.config.optimize_qubit_ordering)\n\n    def run", "        return result\n\n    def run")], "PERM-entry")
+M("C26", "autosave not removed", "kill", [(BACK, "        if impl.autosave_file.is_file():\n            os.remove(impl.autosave_file)\n", "")], "ENTRY-cleanup")
+M("C26", "results not restored", "kill", [(IMPL, "        self.results = Results._from_abstract_repr(d[\"results\"])  # type: ignore [attr-defined]\n", "")], "PICKLE")
+M("C26", "observables not re-patched", "kill", [(IMPL, "        self.config.monkeypatch_observables()\n\n    @staticmethod\n    def _get_autosave_filepath", "        pass\n\n    @staticmethod\n    def _get_autosave_filepath")], "PICKLE")
+M("C26", "resume keeps the old autosave path", "kill", [(BACK, "        impl.autosave_file = autosave_file\n", "")], "ENTRY-resume")
+M("C27", "two renames", "kill",
+  [(IMPL, "        os.replace(basename.with_suffix(\".new\"), basename)\n", "        if basename.is_file():\n            os.rename(basename, basename.with_suffix(\".bak\"))\n        os.rename(basename.with_suffix(\".new\"), basename)\n")], "SAVE-window")
+M("C27", "write in place", "kill",
+  [(IMPL, "        with open(basename.with_suffix(\".new\"), \"wb\") as file_handle:\n            pickle.dump(self, file_handle)\n", "        with open(basename, \"wb\") as file_handle:\n            pickle.dump(self, file_handle)\n        return\n")], "SAVE")
+M("C27", "remove before replace", "kill", [(IMPL, "        os.replace(basename.with_suffix(\".new\"), basename)\n", "        os.remove(basename)\n        os.replace(basename.with_suffix(\".new\"), basename)\n")], "SAVE-window")
+M("C27", "twin: rename the local", "twin", [(IMPL, "        basename = self.autosave_file\n        with open(basename.with_suffix(\".new\"), \"wb\") as file_handle:", "        basename = self.autosave_file\n        tmp = basename.with_suffix(\".new\")\n        with open(tmp, \"wb\") as file_handle:")])
+
+# ---------------------------------------------------------------- C30 / C31 / C32 / C33 / C34
+PT = "emu_base/math/pchip_torch.py"
+M("C30", "where-guarded division", "kill", [(PT, "    dh = _weighted_harmonic_mean(safe_delta_l, safe_delta_r, h_l, h_r)", "    dh = _weighted_harmonic_mean(delta_l, delta_r, h_l, h_r)")], "WGDIV")
+M("C30", "detach in the adapter", "kill", [(PA, "            pchip = PCHIP1D(t_grid, signal.real)", "            pchip = PCHIP1D(t_grid, signal.real.detach())")], "GRADPATH")
+M("C30", "item in the occupation", "kill", [("emu_sv/custom_callback_implementations.py", "    hstate = hamiltonian * state.data\n    h_squared = torch.vdot(hstate, hstate).real\n    energy = torch.vdot(state.data, hstate).real", "    hstate = hamiltonian * state.data\n    h_squared = torch.vdot(hstate, hstate).real\n    energy = torch.vdot(state.data, hstate).real.item()")], "GRADPATH")
+M("C30", "backward swaps delta and phi gradients", "kill", [(TE, "            grad_omegas,\n            grad_deltas,\n            grad_phis,\n            grad_int_mat,", "            grad_omegas,\n            grad_phis,\n            grad_deltas,\n            grad_int_mat,")], "AUTOGRAD")
+M("C30", "saved tensors unpacked in another order", "kill", [(TE, "        omegas, deltas, phis, interaction_matrix, state = ctx.saved_tensors", "        omegas, phis, deltas, interaction_matrix, state = ctx.saved_tensors")], "AUTOGRAD")
+M("C30", "wrong needs_input_grad index", "kill", [(TE, "        if ctx.needs_input_grad[2]:\n            grad_deltas", "        if ctx.needs_input_grad[3]:\n            grad_deltas")], "AUTOGRAD")
+M("C30", "knot validation removed", "kill", [(PT, "        if not torch.all(x[1:] > x[:-1]):\n            raise ValueError(\"x must be strictly increasing\")\n", "")], "WGDIV-seed")
+M("C31", "unknown keyword to Results", "kill", [(SVI, "            atom_order=data.qubit_ids,\n            total_duration=int(self.target_times[-1]),", "            atom_order=data.qubit_ids,\n            total_time=int(self.target_times[-1]),")], "APICOMPAT-call")
+M("C31", "import of a missing name", "kill", [("emu_sv/sv_backend.py", "from pulser.backend import EmulatorBackend, Results, BitStrings", "from pulser.backend import EmulatorBackend, Results, BitStrings, ResultsAggregator")], "APICOMPAT-import")
+M("C31", "apply no longer accepts hamiltonian", "kill", [("emu_mps/observables.py", "    def apply(self, *, state: State, **kwargs: Any) -> torch.Tensor:", "    def apply(self, *, state: State, config: Any = None) -> torch.Tensor:")], "APICOMPAT-override")
+M("C31", "specifiers diverge", "kill", [("ci/emu_base/pyproject.toml", "\"pulser-core[torch]>=1.8.0\"", "\"pulser-core[torch]>=1.7.0\"")], "APICOMPAT-spec")
+M("C32", "identity not a candidate", "kill", [("emu_mps/optimatrix/optimiser.py", "        [torch.arange(L)],  # identity permutation\n", "        [torch.randperm(L)],\n")], "ARGMIN")
+M("C32", "arg-max", "kill", [("emu_mps/optimatrix/optimiser.py", "    best_perm, best_bandwidth = min(\n", "    best_perm, best_bandwidth = max(\n")], "ARGMIN")
+M("C32", "inverse is a gather", "kill", [("emu_mps/optimatrix/permutations.py", "    inv_perm = torch.empty_like(permutation)\n    inv_perm[permutation] = torch.arange(len(permutation))\n    return inv_perm", "    inv_perm = torch.arange(len(permutation))[permutation]\n    return inv_perm")], "ARGMIN-helpers")
+M("C32", "improvement replaces instead of composing", "kill", [("emu_mps/optimatrix/optimiser.py", "        acc_permutation = permute_tensor(acc_permutation, optimal_perm)", "        acc_permutation = optimal_perm")], "ARGMIN")
+M("C32", "permute_list scatters", "kill", [("emu_mps/optimatrix/permutations.py", "    return [input_list[i] for i in perm.tolist()]", "    out = list(input_list)\n    for k, i in enumerate(perm.tolist()):\n        out[i] = input_list[k]\n    return out")], "ARGMIN-helpers")
+M("C33", "floor stores the requested value", "kill", [("emu_mps/mps_config.py", "            new_extra_krylov_tolerance = MIN_KRYLOV_TOL / precision\n", "            new_extra_krylov_tolerance = extra_krylov_tolerance\n")], "CONFIG-krylov-floor")
+M("C33", "floor constant changed", "kill", [("emu_mps/mps_config.py", "        MIN_KRYLOV_TOL = 1.0e-12  # keep numerical stability", "        MIN_KRYLOV_TOL = 1.0e-14  # keep numerical stability")], "CONFIG-krylov-floor")
+M("C33", "autosave bound loosened", "kill", [("emu_mps/mps_config.py", "            self.autosave_dt > MIN_AUTOSAVE_DT\n", "            self.autosave_dt >= MIN_AUTOSAVE_DT\n")], "CONFIG-autosave")
+M("C33", "reorder guard dropped", "kill",
+  [("emu_mps/mps_config.py", "        self._backend_options[\n            \"optimize_qubit_ordering\"\n        ] &= self.check_permutable_observables()\n", "        self.check_permutable_observables()\n")], "CONFIG-reorder-guard")
+M("C33", "reorder guard only when noisy", "kill",
+  [("emu_mps/mps_config.py", "        self._backend_options[\n            \"optimize_qubit_ordering\"\n        ] &= self.check_permutable_observables()\n", "        if self.noise_model.noise_types:\n            self._backend_options[\n                \"optimize_qubit_ordering\"\n            ] &= self.check_permutable_observables()\n")], "CONFIG-reorder-guard")
+M("C33", "twin: if/raise instead of assert", "twin",
+  [("emu_mps/mps_config.py", "        assert (\n            self.autosave_dt > MIN_AUTOSAVE_DT\n        ), f\"autosave_dt must be larger than {MIN_AUTOSAVE_DT} seconds\"", "        if not self.autosave_dt > MIN_AUTOSAVE_DT:\n            raise AssertionError(f\"autosave_dt must be larger than {MIN_AUTOSAVE_DT} seconds\")")])
+M("C34", "first trajectory skipped", "kill", [(BACK, "        for sequence_data in pulser_data.get_sequences():\n            results.append(self._run_from_sequence_data(sequence_data, self._config))", "        for i, sequence_data in enumerate(pulser_data.get_sequences()):\n            if i == 0 and self._config.n_trajectories > 4:\n                continue\n            results.append(self._run_from_sequence_data(sequence_data, self._config))")], "TRAJ")
+M("C34", "only the last result returned", "kill", [("emu_sv/sv_backend.py", "        return Results.aggregate(results)", "        return Results.aggregate(results[-1:])")], "TRAJ")
+M("C34", "n_trajectories not forwarded", "kill", [(PA, "            n_trajectories=config.n_trajectories,\n", "")], "GRID")
